@@ -79,6 +79,10 @@ def run(ctx):
         # of units^2 (the problem is the same one up to that factor)
         data = dict(data, X=data['X'] * 2.0 ** -18)
         ctx.hist('units', '2^-18 (covariance prior)')
+      if i % 8 == 4 and name == 'SDML':
+        # a training set of exactly one (similar) pair
+        data = dict(data, pairs_idx=data['pairs_idx'][data['ypairs'] == 1][:1], ypairs=np.array([1]))
+        ctx.hist('n_pairs', 1)
       big = prior == 'array' and i % 8 == 3
       if big:
         # features recorded in a large unit with a prior expressed in the same unit (e.g. an inverse covariance): its
